@@ -9,6 +9,23 @@ COMMON_NOTE = ("Trusted: Coq 8.16.1 kernel; extraction with ExtrOcamlBasic only 
                "the radix-tree library, flock(2), goroutine scheduling. See DESIGN.md section 5.")
 
 CHECKS = {
+ 'C02': dict(text="Proof (Coq): in every state satisfying Inv (any segment layout, after any deletes incl. tail deletes and an emptied log), "
+                  "Publish of n messages on a read-write handle returns NextOffset+n, assigns exactly NextOffset..NextOffset+n-1 whatever "
+                  "offsets the caller supplied, with or without rollover, preserves Inv and extends the abstract log by exactly those "
+                  "messages (refinement to spec_publish). NextOffset of the model is a function of the abstract state, which Consume/Get "
+                  "are proved not to change. Tied to /repo by seeded histories biased to delete-last/delete-all -> reopen -> publish chains; "
+                  "Publish return values, written-back offsets, NextOffset and Sync are compared and checked by check_publish/check_next on "
+                  "the implementation output. Delete/reopen preservation of NextOffset is covered by correspondence and the checkers; its "
+                  "Coq proof is listed in DESIGN.md as in progress.",
+             ref='6/C02', technique='Coq proof (publish refinement, invariant preservation) + differential correspondence with extracted model'),
+ 'C04': dict(text="Proof (Coq): in every state satisfying Inv, for every offset (all non-negative ones, OffsetOldest, OffsetNewest) and every "
+                  "hash function, the model's log.Get is accepted by check_get: exactly the live message with that offset; ErrNotFound for an "
+                  "assigned-but-deleted offset; ErrInvalidOffset for an unassigned one; first/last live message for the relative offsets incl. "
+                  "an empty head segment; plus the theorem that any Get and Consume(off,1) results accepted by the checkers agree. The "
+                  "exact-match binary search and segment.Get are characterised for arrays of any length. Tied to /repo by Get(off) for every "
+                  "off in {-2,-1} and [0,next+2] after every op of seeded histories, compared with the extracted model and evaluated by "
+                  "check_get / check_get_consume_agree on the implementation output.",
+             ref='6/C04', technique='Coq proof (invariant + refinement to L0 checker) + differential correspondence with extracted model'),
  'C03': dict(text="Proof (Coq) that in every state satisfying the model invariant Inv, for every offset, every maxCount>=1 and every "
                   "hash function, the model's log.Consume is accepted by the L0 checker check_consume (prefix of the live messages at/after "
                   "the offset, next=last+1, no live message stepped over, OffsetNewest, ErrInvalidOffset beyond NextOffset); the transcribed "
